@@ -115,9 +115,44 @@ def quantileOp (j : Json) : R Json := do
   let q ← fld j "q" >>= asRat
   pure (ofRat (quantileLin (sortAsc x) q))
 
+/-- a transform step of a reuse session on a stored object record (`x` exact, `xf` the same values
+    as doubles for `sqrt`): the `c17.apply` answer, stored with its vectors as the new `x` -/
+def tfStep (params : Json) (o : Json) : Json :=
+  let kind := ((fld params "kind" >>= asStr).toOption).getD ""
+  let x := if kind == "sqrt" then fldD o "xf" Json.null else fldD o "x" Json.null
+  let req := (params.mergeObj o).setObjVal! "x" x
+  match applyOp req with
+  | .ok r => r.setObjVal! "x" (fldD r "vecs" Json.null)
+  | .error e => obj [("model_error", Json.str e)]
+
+/-- a whole reuse session through `sessRun`: transforms append to the store, comparisons read; a
+    comparison answers with the vectors it was handed (the engine asks `c03.compare` about exactly
+    those); `store` = the source objects' vectors after the last step -/
+def sessionOp (j : Json) : R Json := do
+  let objs ← fld j "objs" >>= asArr
+  let stepsJ ← fld j "steps" >>= asArr
+  let steps ← stepsJ.mapM (fun s => do
+    let op ← fld s "op" >>= asStr
+    if op == "tf" then do
+      let src ← fld s "src" >>= asNat
+      pure (Step.tf src (tfStep s) : Step Json Json)
+    else do
+      let a ← fld s "a" >>= asNat
+      let b ← fld s "b" >>= asNat
+      pure (Step.cmp a b (fun x y =>
+        obj [("a", fldD x "x" Json.null), ("b", fldD y "x" Json.null)])))
+  let r := sessRun objs steps
+  let outJ := r.2.map (fun o => match o with
+    | .obj v => v
+    | .val v => v
+    | .bad => Json.str "bad")
+  pure (obj [("outs", Json.arr outJ.toArray),
+             ("store", Json.arr ((r.1.take objs.length).map (fun o => fldD o "x" Json.null)).toArray)])
+
 def handle : Handler := fun op j =>
   match op with
   | "c17.apply" => some (applyOp j)
+  | "c17.session" => some (sessionOp j)
   | "c17.paths" => some (pathsOp j)
   | "c17.quantile" => some (quantileOp j)
   | _ => none
